@@ -40,7 +40,7 @@ job_dig(const IMB_JOB *r, const hx_job *j)
                         if (full < nb)
                                 h = (h ^ (uint8_t) (j->dst[nb - 1] & (0xff << j->sp.bitadj))) * 1099511628211ULL;
                 }
-                for (uint32_t i = 0; j->tag && hx_tag_defined(&j->sp) && i < j->sp.taglen; i++)
+                for (uint32_t i = 0; j->tag && i < hx_tag_cmp_len(&j->sp); i++)
                         h = (h ^ j->tag[i]) * 1099511628211ULL;
         }
         return h;
